@@ -111,12 +111,19 @@ def find_link_image(string, offset, delimiters, matches, root=None):
 
 
 def process_emphasis(string, stack_bottom, delimiters, matches):
-    star_bottom = stack_bottom
-    underscore_bottom = stack_bottom
+    # lower bounds for the opener search, one per kind of closer: delimiter character,
+    # whether the closer can also open, and its original run length modulo 3.
+    # They are kept as delimiter objects, because list positions shift when
+    # delimiters are removed.
+    openers_bottom = {}
     curr_pos = next_closer(stack_bottom, delimiters)
     while curr_pos is not None:
         closer = delimiters[curr_pos]
-        bottom = star_bottom if closer.type[0] == '*' else underscore_bottom
+        bottom_key = (closer.type[0], closer.open, closer.orig_number % 3)
+        bottom = stack_bottom
+        for index, delimiter in enumerate(delimiters[:curr_pos]):
+            if delimiter is openers_bottom.get(bottom_key):
+                bottom = index
         open_pos = matching_opener(curr_pos, delimiters, bottom)
         if open_pos is not None:
             opener = delimiters[open_pos]
@@ -140,11 +147,7 @@ def process_emphasis(string, stack_bottom, delimiters, matches):
             if curr_pos < 0:
                 curr_pos = 0
         else:
-            bottom = curr_pos - 1 if curr_pos > 1 else None
-            if closer.type[0] == '*':
-                star_bottom = bottom
-            else:
-                underscore_bottom = bottom
+            openers_bottom[bottom_key] = delimiters[curr_pos - 1] if curr_pos > 0 else None
             if not closer.open:
                 delimiters.remove(closer)
             else:
